@@ -212,7 +212,7 @@ def run(ctx):
     for name, text in model_runs(ctx.quick):
         res = run_cfg(ctx, name, text)
         na = {"Alpha1": 1, "Alpha2": 2, "Alpha2b": 2, "Alpha3": 3, "Alpha4": 4}[text.split("Alpha <- ")[1].split()[0]]
-        for doc in res.printed:
+        for doc in ctx.sample([d for d in res.printed if "kind" in d], 60000):
             if "kind" not in doc:
                 continue
             sets = LETTERSETS[na]
